@@ -133,7 +133,7 @@ def sites_of(fn):
                                 origin_desc(fn, t["args"][0]) if t["args"] else "-", "%s:%s" % (t["file"], t["line"]), t["exp"]))
         if t["t"] == "assert":
             k = t["kind"]
-            if k in ("misaligned", "nullptr", "invalid_enum"):
+            if k in ("misaligned", "nullptr", "invalid_enum", "resumed"):
                 continue        # debug-only checks rustc inserts around raw pointer derefs / transmutes
             out.append(Site(fn, bi, "assert", k, "-", "%s:%s" % (t["file"], t["line"]), t["exp"]))
     return out
